@@ -50,6 +50,18 @@ def _latent_time_interval(ts: datetime, ti: Interval) -> Interval:
     if dm_from <= ts:
         dm_from += relativedelta(days=1)
         dm_to += relativedelta(days=1)
+    if dm_to <= dm_from:
+        # never return an inverted range; same convention as for a clock range
+        # on a date (ruleDateInterval): "9-5" ends 12 hours later if both hours
+        # are on the 12h dial, otherwise ("22-2", "23:30-3:35") on the next day
+        if (
+            ti.t_from.hour <= 12
+            and ti.t_to.hour <= 12
+            and dm_to + relativedelta(hours=12) > dm_from
+        ):
+            dm_to += relativedelta(hours=12)
+        else:
+            dm_to += relativedelta(days=1)
     return Interval(
         t_from=Time(
             year=dm_from.year,
